@@ -1,5 +1,6 @@
 import Proofs.SymbolTable
 import HclModel.Gen.RecvWrites
+import HclModel.Gen.GlobalWrites
 /-!
 # C17 — a parsed configuration can be evaluated concurrently (isolation of the splat symbol table)
 
@@ -65,5 +66,18 @@ example : 0 < (Gen.recvWrites.filter fun s => s.type == "*AnonSymbolExpr").lengt
 /-- the check is not trivially true: a memo stored in a node by `Value` is rejected -/
 example : allAllowed allowedWrites [⟨"hclsyntax/expression.go", "*SplatExpr", "Value", "Item.resultTys", "assign"⟩] = false := by
   decide +kernel
+
+/-- `Gen.globalWrites`: every statement in a function body of the library packages that writes to a package-level
+    variable (regenerated from the Go AST). Package-level state is shared by all goroutines whatever contexts they
+    use: the only such writes are in `init` functions, which run before any evaluation. -/
+theorem package_state_written_only_by_init : Gen.globalWrites.all (fun s => s.method == "init") = true := by
+  decide +kernel
+
+theorem global_write_is_in_init (s : Site) (h : s ∈ Gen.globalWrites) : s.method = "init" := by
+  have := List.all_eq_true.mp package_state_written_only_by_init s h
+  simpa using this
+
+/-- non-vacuity: the translator does see the writes that exist (the operator table is built in an `init`) -/
+example : Gen.globalWrites.any (fun s => s.field == "binaryOps") = true := by decide +kernel
 
 end HclModel.RecvWrites
